@@ -676,6 +676,41 @@ Proof.
   - repeat split.
 Qed.
 
+(* ================= collected statements for Props/C15.v ================= *)
+
+Lemma not_snapshot n :
+  (no_dot n = true -> parse_name n = Err EOther) /\
+  (forall base ext, cut DOT n = Some (base, ext) -> ext <> ext_pbgz -> parse_name n = Err EOther) /\
+  (forall base ext, cut DOT n = Some (base, ext) -> (length (split_us base) < 4)%nat -> parse_name n = Err EOther) /\
+  (forall base ext p0 p1 p2 p3 ex, cut DOT n = Some (base, ext) -> split_us base = p0 :: p1 :: p2 :: p3 :: ex ->
+      length p2 <> 25%nat \/ nth 15 p2 0 <> DASH \/ time_parse p2 = None -> parse_name n = Err EOther) /\
+  ((exists x, parse_name n = Ok x) \/ parse_name n = Err EOther).
+Proof.
+  split; [apply rejects_no_dot|]. split; [apply rejects_extension|]. split; [apply rejects_few_parts|].
+  split; [apply rejects_timestamp|apply parse_name_total].
+Qed.
+
+Lemma accepts_iff n x :
+  parse_name n = Ok x <->
+  exists base p0 p1 p2 p3 ex t,
+    cut DOT n = Some (base, ext_pbgz) /\ split_us base = p0 :: p1 :: p2 :: p3 :: ex /\
+    length p2 = 25%nat /\ nth 15 p2 0 = DASH /\ time_parse p2 = Some t /\
+    x = mkNI n base ext_pbgz kind_snapshot p0 p1 p3 p2 t ex.
+Proof.
+  split; [apply parse_name_inv|].
+  intros (base & p0 & p1 & p2 & p3 & ex & t & Hc & Hs & Hl & Hd & Ht & ->).
+  apply parse_name_intro; assumption.
+Qed.
+
+Lemma sanitize_props s :
+  safe (sanitize s) = true /\ (safe s = true -> sanitize s = s) /\
+  ~ In US (sanitize s) /\ ~ In DOT (sanitize s) /\ (length (sanitize s) <= length s)%nat.
+Proof.
+  split; [apply sanitize_safe|]. split; [apply sanitize_id|].
+  destruct (sanitize_no_separators s) as [H1 H2]. split; [exact H1|]. split; [exact H2|].
+  apply sanitize_aux_length.
+Qed.
+
 (* ================= limits of the claims: counterexamples, each checked by computation ================= *)
 
 Module Limits.
